@@ -676,6 +676,8 @@ class Run:
         _give(self.sems[tid])
         if not self.main.acquire(True, self.WATCHDOG):
             self._stuck(tid)
+        if self.failed_acq[tid]:
+            self.stale[tid] -= 1          # a step spent waiting for a lock is not idle spinning
 
     def _stuck(self, tid):
         """the resumed thread reached no scheduling point within the wall-clock bound: it is blocked inside
